@@ -204,8 +204,13 @@ func H_Escape() {
 		var walk func(x *JV)
 		walk = func(x *JV) {
 			for i, k := range x.Keys {
-				if x.KSp != nil && x.KSp[i] != nil && len(k) >= 3 && len(x.KSp[i]) >= 3 && x.KSp[i][0] == 0xE2 {
-					rawSepInName = true
+				if x.KSp != nil && x.KSp[i] != nil && len(k) >= 3 {
+					sp := x.KSp[i]
+					for j := 0; j+2 < len(sp); j++ {
+						if sp[j] == 0xE2 && sp[j+1] == 0x80 && (sp[j+2] == 0xA8 || sp[j+2] == 0xA9) {
+							rawSepInName = true
+						}
+					}
 				}
 			}
 			for _, k := range x.Kids {
@@ -253,6 +258,76 @@ func lookupPtr(doc *JV, p Ptr) *JV {
 	return v
 }
 
+// encSpell: how the encoder spells a string value (short escapes, lower-case \u00XX for other control bytes, U+2028/9
+// always escaped, <, >, & escaped when escapeHTML is on, everything else raw).
+func encSpell(val []byte, escape bool) []byte {
+	hex := "0123456789abcdef"
+	var out []byte
+	for i := 0; i < len(val); i++ {
+		c := val[i]
+		switch {
+		case c == '"':
+			out = append(out, '\\', '"')
+		case c == '\\':
+			out = append(out, '\\', '\\')
+		case c == '\n':
+			out = append(out, '\\', 'n')
+		case c == '\r':
+			out = append(out, '\\', 'r')
+		case c == '\t':
+			out = append(out, '\\', 't')
+		case c < 0x20:
+			out = append(out, '\\', 'u', '0', '0', hex[c>>4], hex[c&15])
+		case escape && (c == '<' || c == '>' || c == '&'):
+			out = append(out, '\\', 'u', '0', '0', hex[c>>4], hex[c&15])
+		case c == 0xE2 && i+2 < len(val) && val[i+1] == 0x80 && (val[i+2] == 0xA8 || val[i+2] == 0xA9):
+			out = append(out, '\\', 'u', '2', '0', '2', hex[val[i+2]&15])
+			i += 2
+		default:
+			out = append(out, c)
+		}
+	}
+	return out
+}
+
+// encoderSpelled: every string and member name of v is spelled in the text exactly as the encoder would spell it under
+// the given option - the documents over which the property's byte-identity clauses quantify.
+func encoderSpelled(v *JV, escape bool) bool {
+	same := func(val, sp []byte) bool {
+		if sp == nil {
+			sp = val
+		}
+		want := encSpell(val, escape)
+		if len(want) != len(sp) {
+			return false
+		}
+		for i := range want {
+			if want[i] != sp[i] {
+				return false
+			}
+		}
+		return true
+	}
+	if v.K == JStr && !same(v.Lit, v.Sp) {
+		return false
+	}
+	for i, k := range v.Keys {
+		var sp []byte
+		if v.KSp != nil {
+			sp = v.KSp[i]
+		}
+		if !same(k, sp) {
+			return false
+		}
+	}
+	for _, k := range v.Kids {
+		if !encoderSpelled(k, escape) {
+			return false
+		}
+	}
+	return true
+}
+
 // H_TestNeutral (C15): a patch plus PASSING test operations yields the same bytes as the patch without them.
 func H_TestNeutral() {
 	var doc *JV
@@ -263,6 +338,12 @@ func H_TestNeutral() {
 		doc = docShape(chooseMask("shape", vx.Param("shapemask"), nDocShapes), "d.")
 	}
 	escape := vx.Choose("opt.escape", 2) == 1
+	if vx.Param("escdocs") == 1 && !encoderSpelled(doc, escape) {
+		// the byte-identity clause quantifies over documents spelled as the encoder itself spells them (under this
+		// option): a test that has to walk INTO a container parses it, and its names are then written the encoder's way
+		vx.Reach("testneutral/not-encoder-spelled")
+		return
+	}
 	op := genOp("op0", vx.Param("kmask0"), 0, vx.Param("maxtok"), vx.Param("tokmask"), vx.Param("nvals"))
 	tp := genPtr("t.path", 0, vx.Param("maxtok"), vx.Param("tokmask"))
 	before := vx.Choose("t.before", 2) == 1
